@@ -471,8 +471,8 @@ def oracle_cip(spec, r, cip):
     return lg.oracle_step(spec, r, rep, True)
 
 
-def ncp_fields(ncp):
-    large = ncp > 0xFFFF
+def ncp_fields(ncp, large):
+    # the service code (Forward Open / Large Forward Open) selects the layout
     sh = 16 if large else 0
     return (ncp & (0xFFFF if large else 0x1FF)), (ncp >> (13 + sh)) & 3
 
@@ -482,8 +482,8 @@ def oracle_fo(step, cip, open_conns):
     if cip[0] != svc | 0x80 or len(cip) < 4 or cip[1] != 0:
         return "bad Forward Open reply header"
     st, extn = cip[2], cip[3]
-    osz, oty = ncp_fields(step["otNcp"])
-    tsz, _ = ncp_fields(step["toNcp"])
+    osz, oty = ncp_fields(step["otNcp"], step["large"])
+    tsz, _ = ncp_fields(step["toNcp"], step["large"])
     valid = osz > 0 and tsz > 0
     if not valid:
         return None if st != 0 else "Forward Open with a zero connection size accepted"
@@ -501,7 +501,7 @@ def oracle_fo(step, cip, open_conns):
         return "actual packet intervals differ from the requested ones"
     if oty != 2 and ot != step["otId"]:
         return "O->T connection id not echoed for a non point-to-point connection"
-    _, tty = ncp_fields(step["toNcp"])
+    _, tty = ncp_fields(step["toNcp"], step["large"])
     if tty != 1 and to != step["toId"]:
         return "T->O connection id chosen by the originator not echoed"
     open_conns[ot] = serial
@@ -714,8 +714,8 @@ def fc_of(rng, fo, wrong=False):
 def fo_usable(fo, tags):
     """does the connection path designate an object that serves tag requests?"""
     t = fo["target"]
-    osz, _ = ncp_fields(fo["otNcp"])
-    tsz, _ = ncp_fields(fo["toNcp"])
+    osz, _ = ncp_fields(fo["otNcp"], fo["large"])
+    tsz, _ = ncp_fields(fo["toNcp"], fo["large"])
     return osz > 0 and tsz > 0
 
 
